@@ -171,10 +171,17 @@ def BodyK.collapsed : BodyK → BodyK
   | .page _ => .pageFlat
   | b => b
 
+/-- the code `valid_status(response.status)` works with: `if not status: status = 200` (None, '' and 0
+    are falsy) -/
+def statusCode (s : St) : Nat :=
+  match s.status with
+  | none => 200
+  | some 0 => 200
+  | some c => c
+
 /-- `Response.finalize()` -/
 def finalize (s : St) : R :=
-  -- valid_status: `if not status: status = 200` (None, '' and 0 are falsy)
-  let code := match s.status with | none => 200 | some 0 => 200 | some c => c
+  let code := statusCode s
   if code < 100 ∨ 599 < code then { st := s, exn := some (.httpError 500) }
   else
     let s1 := { s with status := some code, out := some code }
@@ -249,21 +256,30 @@ def callErrorResponse (s : St) : R :=
     | some e => { j := [.errorResponse], st := s, exn := some e }
     | none => { j := [.errorResponse], st := { s with status := some 503, body := .custom } }
 
-/-- `Request.handle_error` -/
-def handleError (s : St) : R :=
-  let a := (runPoint pg .beforeErrorResponse s)
+/-- the `try` block of `Request.handle_error` -/
+def handleErrorTry (s : St) : R :=
+  (runPoint pg .beforeErrorResponse s)
     |>.andThen (callErrorResponse pg)
     |>.andThen (runPoint pg .afterErrorResponse)
     |>.andThen (finalize pg)
+
+/-- `Request.handle_error` -/
+def handleError (s : St) : R :=
+  let a := handleErrorTry pg s
   match a.exn with
   | some (.httpRedirect c) =>
     let b := (setResponseRedirect c a.st).andThen (finalize pg)
     { b with j := a.j ++ b.j }
   | _ => a
 
+/-- the `try: try: … except (HTTPRedirect, HTTPError): … finally: run('on_end_resource')` block of
+    `Request.respond` -/
+def protectedBlock (s : St) : R :=
+  (exceptBranch pg (doRespond pg meth noHost badQuery s)).finallyDo (runPoint pg .onEndResource)
+
 /-- `Request.respond` -/
 def respond (s : St) : R :=
-  let a := (exceptBranch pg (doRespond pg meth noHost badQuery s)).finallyDo (runPoint pg .onEndResource)
+  let a := protectedBlock pg meth noHost badQuery s
   match a.exn with
   | none => a
   | some (.internalRedirect _) => a                  -- except self.throws: raise
